@@ -99,6 +99,9 @@ func extractOf(call *core.Call, idx int) ssa.Value {
 
 // ruleAckResolution implements C04-R1/R2/R5 (shared with C03 as the in-flight table's contract).
 func (c *Ctx) ruleAckResolution(prefix string) {
+	if prefix != "C04" {
+		defer c.ruleSweepDrains(prefix + "-R7")
+	}
 	ru1 := c.R.Rule(prefix+"-R1", "winner-takes-callback: a stored callback is invoked only where Hash.Delete of that key reported ok; the timeout is registered only where PutIfMissing reported true; a duplicate identifier only returns an error", "E2 control dependence on the atomic operation's result", 4)
 	h := c.hashAnchors(ru1)
 	if h == nil {
@@ -332,6 +335,74 @@ func checkC04(c *Ctx) {
 		}
 	}
 
+	c.ruleSweepDrains("C04-R7")
+
+	// R8: slices that are binary-searched stay sorted
+	ru8 := c.R.Rule("C04-R8", "a slice field that is binary-searched with sort.Search is only modified in order-preserving ways: append followed by a sort, or deletion by append(s[:i], s[i+1:]...); a whole element is never overwritten in place (swap-with-last removal breaks the order the search relies on)", "E11 shape rule on writes to sort.Search'ed members", 1)
+	search := c.P.FuncObj("sort", "Search")
+	sorted := map[string]bool{} // "<type>.<field>"
+	for _, f := range c.P.ModFuncs() {
+		if f.Package() == nil || f.Package().Pkg.Path() != c.P.Rel("wasp/expiration") {
+			continue
+		}
+		for _, cl := range core.CallsTo(f, search) {
+			pred := closureArg(cl.Arg(1))
+			if pred == nil {
+				continue
+			}
+			for _, b := range pred.Blocks {
+				for _, in := range b.Instrs {
+					if ia, ok := in.(*ssa.IndexAddr); ok {
+						if ld, ok := ia.X.(*ssa.UnOp); ok && ld.Op == token.MUL {
+							if fa, ok := ld.X.(*ssa.FieldAddr); ok {
+								sorted[derefNamedName(fa.X.Type())+"."+fieldNameOf(fa.X.Type(), fa.Field)] = true
+							}
+						}
+					}
+				}
+			}
+		}
+	}
+	for name := range sorted {
+		bad := ""
+		n := 0
+		for _, f := range c.P.ModFuncs() {
+			if f.Package() == nil || f.Package().Pkg.Path() != c.P.Rel("wasp/expiration") {
+				continue
+			}
+			for _, b := range f.Blocks {
+				for _, in := range b.Instrs {
+					st, ok := in.(*ssa.Store)
+					if !ok {
+						continue
+					}
+					ia, ok := st.Addr.(*ssa.IndexAddr)
+					if !ok {
+						continue
+					}
+					ld, ok := ia.X.(*ssa.UnOp)
+					if !ok || ld.Op != token.MUL {
+						continue
+					}
+					fa, ok := ld.X.(*ssa.FieldAddr)
+					if !ok || derefNamedName(fa.X.Type())+"."+fieldNameOf(fa.X.Type(), fa.Field) != name {
+						continue
+					}
+					n++
+					// acceptable only if a sort of that slice follows on every path
+					sortedAfter := !core.ReachableAvoiding(st, core.IsReturn, func(x ssa.Instruction) bool {
+						cl := core.CallOf(x)
+						return cl != nil && cl.Obj != nil && cl.Obj.Pkg() != nil && cl.Obj.Pkg().Path() == "sort" && cl.Obj.Name() != "Search"
+					})
+					if !sortedAfter {
+						bad = "an element of the binary-searched slice " + name + " is overwritten in place at " + c.whereI(st) + " and the slice is not re-sorted afterwards: later searches (deletes) miss their entry"
+					}
+				}
+			}
+		}
+		ru8.Check(bad == "", "order of "+name, "-", fmt.Sprintf("%d in-place element store(s), none leaves the slice unsorted", n), bad)
+	}
+
 	ru6 := c.R.Rule("C04-R6", "the in-flight table key is computed by a single function whose result depends on both the session prefix and the packet identifier; every Get/Delete/PutIfMissing outside the sweep uses it", "E3 + E10", 3)
 	var keyFn *ssa.Function
 	n := 0
@@ -501,4 +572,44 @@ func (c *Ctx) idSelectsRemoval(fn *ssa.Function, argIdx int, depth int, seen map
 		}
 	}
 	return false, "the id parameter never reaches an equality test that selects the item to remove in " + c.fname(fn) + ": deleting one entry's timeout removes whichever entry happens to be first"
+}
+
+// ruleSweepDrains implements C04-R7 (also part of the in-flight table contract used by C03 / C20).
+func (c *Ctx) ruleSweepDrains(id string) {
+	ru0 := c.R.Rule(id+"-anchors", "anchors", "", 0)
+	h := c.hashAnchors(ru0)
+	if h == nil {
+		return
+	}
+	ru7 := c.R.Rule(id, "the expiry sweep tries to resolve every key returned by expiration.List.Expire: inside the loop over that result no iteration can continue without reaching Hash.Delete (a key taken off the timeout list but skipped is never expired nor re-armed)", "E2 dominance over the loop's back edges", 1)
+	for _, f := range c.ackFuncs(h) {
+		for _, ex := range core.CallsTo(f, h.listExpire) {
+			c.R.Fn(c.fname(f))
+			key := "sweep loop in " + c.fname(f)
+			var del *core.Call
+			for _, d := range core.CallsTo(f, h.del) {
+				del = d
+			}
+			if del == nil {
+				ru7.Fail(key, c.whereI(ex.Instr), "the sweep never removes entries from the in-flight table")
+				continue
+			}
+			l := core.InnermostLoop(core.Loops(f), del.Instr.Block())
+			bad := ""
+			if l == nil {
+				bad = "the keys returned by the timeout list are not processed in a loop"
+			} else {
+				for _, pr := range l.Header.Preds {
+					if l.Blocks[pr] && !del.Instr.Block().Dominates(pr) {
+						bad = "an iteration of the sweep can skip Hash.Delete for the key it was given (at " + c.P.Pos(lastPos(pr)) + "): that entry has already left the timeout list, so it is never expired, retransmitted or released"
+					}
+				}
+				if !depReaches(del.Args()[0], func(v ssa.Value) bool { return v == ex.Value() }) {
+					bad = "the key removed is not the one returned by the timeout list"
+				}
+			}
+			ru7.Check(bad == "", key, c.whereI(del.Instr), "Hash.Delete dominates every back edge of the sweep loop", bad)
+		}
+	}
+
 }
